@@ -124,6 +124,12 @@ STATEMENTS = [
     'x = len({LN}); x *= x; x += len({S}); x', 'x = None; x', 'x = None; y = x; [x, y, x == None]', 'f = v => v == None; f(None)',
     '[1, None] | map(v => "<" + v)', 'x = [1]; r = x.push(2); "r=" + r', 'x = ⟦"a": None⟧; get(x, "a", 7)', 'x = ⟦"a": None⟧; x["a"]',
     'get(⟦"a": 0⟧, "a", {N})', 'get(⟦"a": False⟧, "a", {S})', 'x = False; x or {N}', 'x = 0; x', 'x = ""; x + {S}',
+    # a call site evaluated before and after the builtin it names is rebound / shadowed; compound assignment to a name extends a list IN PLACE
+    'g = v => len([1, v]); a = g(0); len = v => 99; [a, g(0)]', 'g = v => upper(v); a = g("q"); upper = v => lower(v); [a, g("Q")]',
+    'a = map({LN}, v => str(v)); str = v => 0; [a, map({LN}, v => str(v))]', 'g = v => len(v); h = len => g("abc"); [g("ab"), h(v => 7), g("a")]',
+    'x = {LN}; box = [0]; push(box, x); x += [{N}]; box', 'x = {LN}; box = ⟦"k": 0⟧; box2 = [box]; f = v => push(v, x); f(box2); x += [{N}]; [x, box2]',
+    'l += [{N}]; l', 'x = [1]; f = v => [push(v, 5), x][1]; y = [x]; push(y, x); x += [2]; y', 's += {S}; x = [s]; s += "!"; [x, s]',
+    'x = {LN}; y = [0]; insert(y, 0, x); x += {LN}; x -= 0 if False else 0' if False else 'x = {LN}; y = [0]; insert(y, 0, x); x += {LN}; y',
     'u_undefined + {N}', '{N} + u_undefined', 'f_undefined({N})', '{B} or u_undefined', '{B} and f_undefined(1)', 'u_undefined += {N}',
     '[{N}, {LN}[9]]', '{D}["missing"]', 'pop([])', '⟦"a": 1⟧["a"] + {D}[{K}]',
 ]
